@@ -10,6 +10,7 @@ open PyTrie.Bin
 structure St where
   db : Db := []
   tries : Array (Option BNode) := #[]
+  rr : Hash × Db := (keccak [], [])      -- root and database of the raw-level run (`BinRaw.rawSet` threaded)
   deriving Inhabited
 
 def joinOr (l : List String) (sep : String) : String := if l.isEmpty then "-" else sep.intercalate l
@@ -141,6 +142,32 @@ def step (st : St) (cmd : String) (args : List String) : St × String :=
     match ofHex h, ofHex b with
     | some h, some b => ({ st with db := st.db.filter (fun e => !(e.1 == h)) ++ [(h, b)] }, "ok")
     | _, _ => bad
+  -- a whole history at raw level, on its own root and database
+  | "rrnew", [] => ({ st with rr := (keccak [], []) }, "ok")
+  | "rrop", [k, v, sub] =>
+    match ofHex k, ofHex v with
+    | some k, some v =>
+      match BinRaw.rawSet keccak (keccak []) (8 * k.length + 4) { db := st.rr.2 } st.rr.1 (toBits k) v (sub == "1") with
+      | .ok (h, st') => ({ st with rr := (h, st'.db) }, s!"root={toHex h}")
+      | .error .override => (st, "exn NodeOverrideError")
+      | .error (.keyError _) => (st, "exn KeyError")
+      | .error .invalid => (st, "exn Invalid")
+      | .error .fuel => (st, "exn Fuel")
+    | _, _ => bad
+  | "rrdb", [] =>
+    let ded := st.rr.2.foldl (fun acc e => if acc.any (fun x => x.1 == e.1) then acc else acc ++ [e]) []
+    (st, joinOr ((sortPairs ded).map fun e => s!"{toHex e.1}:{toHex e.2}") ",")
+  | "rrget", [k] =>
+    match ofHex k with
+    | some k =>
+      (st, match bgetD (keccak []) st.rr.2 (8 * k.length + 2) st.rr.1 (toBits k) with
+        | .ok (some v) => s!"v {toHex v}"
+        | .ok none => "None"
+        | .error (.keyError _) => "exn KeyError"
+        | .error .invalidNode => "exn InvalidNode"
+        | .error .assertion => "exn AssertionError"
+        | .error _ => "exn Other")
+    | none => bad
   | "getat", [r, k] =>
     match ofHex r, ofHex k with
     | some r, some k =>
